@@ -21,6 +21,7 @@ class Prop(BaseProp):
     theorems = ["C19_parse_serialize", "C19_push_form", "C19_serialize_is_spec", "C19_too_long_refused", "C19_parse_accounts",
                 "C19_truncation_rejected", "C19_varint_roundtrip", "C19_varint_shortest", "C19_varint_refuses"]
     exec_modules = ["Exec.C19"]
+    pysem_funcs = ['helper.encode_varint', 'helper.little_endian_to_int', 'helper.int_to_little_endian']
     exec_import = "From BHW Require Import Lib.Base Exec.Common Exec.C19.\nFrom Coq Require Import String.\nOpen Scope string_scope."
     shard = 150
     rule = ("Ser: single-element scripts for every element length 0..521 (thorough: all; quick: all boundaries and every 7th), "
